@@ -16,17 +16,23 @@ VARIABLES c, stage
 
 TX1 == TBase("X1")
 G == [X1 |-> TBool(TX1), S1 |-> TBool(TTuple(<<TX1, TX1>>)), S2 |-> TBool(TBool(TX1)), C1 |-> TBool(TBase("C1")),
-      F1 |-> TBool(TBool(TX1)), F2 |-> TBool(TRad("R1")), F3 |-> TBool(TX1), F4 |-> TBool(TX1), P1 |-> TLogic, A1 |-> TLogic]
+      F1 |-> TBool(TBool(TX1)), F2 |-> TBool(TRad("R1")), F3 |-> TBool(TX1), F4 |-> TBool(TX1),
+      F5 |-> TBool(TTuple(<<TX1, TX1>>)), F6 |-> TBool(TX1), P1 |-> TLogic, A1 |-> TLogic]
 F == [F1 |-> [args |-> <<[name |-> "a", type |-> TBool(TX1)]>>],
       F2 |-> [args |-> <<[name |-> "a", type |-> TBool(TRad("R1"))], [name |-> "b", type |-> TRad("R1")]>>],
       F3 |-> [args |-> <<[name |-> "a", type |-> TBool(TX1)]>>],
       F4 |-> [args |-> <<[name |-> "a", type |-> TBool(TX1)], [name |-> "b", type |-> TBool(TX1)]>>],
+      F5 |-> [args |-> <<[name |-> "a", type |-> TBool(TX1)]>>],
+      F6 |-> [args |-> <<[name |-> "a", type |-> TBool(TTuple(<<TX1, TX1>>))]>>],
       P1 |-> [args |-> <<[name |-> "a", type |-> TBool(TX1)]>>]]
 La == Loc("a")  Lb == Loc("b")  Lc == Loc("c")
 FD == [F1 |-> [args |-> <<"a">>, body |-> Node("ENUM", <<La>>)],
        F2 |-> [args |-> <<"a", "b">>, body |-> Node("UNION", <<La, Node("ENUM", <<Lb>>)>>)],
        F3 |-> [args |-> <<"a">>, body |-> Node("DECLARATIVE", <<Lb, La, Node("EXISTS", <<Lc, La, Node("NOTEQUAL", <<Lc, Lb>>)>>)>>)],
        F4 |-> [args |-> <<"a", "b">>, body |-> Node("DECLARATIVE", <<Lc, La, Node("EXISTS", <<Loc("d"), Lb, Node("EQUAL", <<Loc("d"), Lc>>)>>)>>)],
+       \* F5, F6: the first local of the body is a pair in one and an element in the other (nested calls must keep their locals apart)
+       F5 |-> [args |-> <<"a">>, body |-> Node("DECLARATIVE", <<Lb, Node("DECART", <<La, La>>), Node("AND", <<Node("EQUAL", <<La, La>>), Node("IN", <<Idx("SMALLPR", <<1>>, <<Lb>>), La>>)>>)>>)],
+       F6 |-> [args |-> <<"a">>, body |-> Node("DECLARATIVE", <<Lb, Idx("BIGPR", <<1>>, <<La>>), Node("EXISTS", <<Lc, La, Node("EQUAL", <<Idx("SMALLPR", <<1>>, <<Lc>>), Lb>>)>>)>>)],
        P1 |-> [args |-> <<"a">>, body |-> Node("EQUAL", <<La, Glob("X1")>>)]]
 Interps == <<
   [X1 |-> {1,2}, S1 |-> {<<1,1>>, <<1,2>>}, S2 |-> {{}, {1}}, C1 |-> {1,2,3}, A1 |-> TRUE],
@@ -134,7 +140,21 @@ SeedNested == {Call("F4", <<x, Call("F4", <<y, z>>)>>) : x \in SubArgs, y \in Su
          \cup {Call("F3", <<Call("F4", <<x, Call("F3", <<y>>)>>)>>) : x \in SubArgs, y \in SubArgs}
          \cup {Call("F4", <<Call("F3", <<x>>), Call("F3", <<y>>)>>) : x \in SubArgs, y \in SubArgs}
          \cup {Node("DECLARATIVE", <<La, x, Node("IN", <<La, Call("F4", <<y, Call("F3", <<x>>)>>)>>)>>) : x \in SubArgs, y \in SubArgs}
-Seeds == UNION {SeedFilter, SeedRec, SeedImp, SeedBind, SeedCall, SeedScope, SeedAxiom, SeedLazy, SeedNested}
+\* nested calls of functions whose i-th locals have different typifications, the inner call sitting in the body of the outer binder
+SeedNested2 == {Call("F5", <<x>>) : x \in SubArgs} \cup {Call("F6", <<x>>) : x \in {Glob("S1"), X1xX1}}
+          \cup {Call("F5", <<Call("F3", <<x>>)>>) : x \in SubArgs} \cup {Call("F5", <<Call("F4", <<x, y>>)>>) : x \in SubArgs, y \in SubArgs}
+          \cup {Call("F6", <<Call("F5", <<x>>)>>) : x \in SubArgs} \cup {Call("F6", <<Call("F5", <<Call("F3", <<x>>)>>)>>) : x \in SubArgs}
+          \cup {Call("F5", <<Call("F6", <<x>>)>>) : x \in {Glob("S1"), X1xX1}} \cup {Call("F3", <<Call("F6", <<Call("F5", <<x>>)>>)>>) : x \in SubArgs}
+          \cup {Call("F4", <<Call("F6", <<Call("F5", <<x>>)>>), Call("F6", <<Glob("S1")>>)>>) : x \in SubArgs}
+\* the same name bound again in a sibling scope over a domain of another typification, used as only one of the two types allows
+SibBodies == {Node("EQUAL", <<Node("CARD", <<La>>), IntLit(0)>>), Node("EQUAL", <<La, La>>), Node("IN", <<La, Glob("X1")>>), Node("SUBSET_OR_EQ", <<La, Glob("X1")>>),
+              Node("EQUAL", <<Idx("SMALLPR", <<1>>, <<La>>), Idx("SMALLPR", <<2>>, <<La>>)>>), Node("IN", <<La, Glob("S1")>>)}
+SibDoms == {Glob("X1"), Glob("S1"), Glob("S2"), Node("BOOLEAN", <<Glob("X1")>>), X1xX1}
+SeedSibling == {Node(o, <<Node(q1, <<La, d1, Node("EQUAL", <<La, La>>)>>), Node(q2, <<La, d2, b>>)>>) :
+                    o \in {"AND", "OR"}, q1 \in {"FORALL"}, q2 \in Quant, d1 \in SibDoms, d2 \in SibDoms, b \in SibBodies}
+          \cup {Node("UNION", <<Node("DECLARATIVE", <<La, d1, Node("EQUAL", <<La, La>>)>>), Node("DECLARATIVE", <<La, d2, b>>)>>) : d1 \in SibDoms, d2 \in SibDoms, b \in SibBodies}
+          \cup {Node("IMPERATIVE", <<La, Node("FORALL", <<La, d1, Node("EQUAL", <<La, La>>)>>), It(La, d2)>>) : d1 \in SibDoms, d2 \in SibDoms}
+Seeds == UNION {SeedFilter, SeedRec, SeedImp, SeedBind, SeedCall, SeedScope, SeedAxiom, SeedLazy, SeedNested, SeedNested2, SeedSibling}
 
 NoLoc == [x \in {} |-> TAny]
 NoVal == [x \in {} |-> 0]
